@@ -160,7 +160,8 @@ def satisfyObjectiveUnbounded (p : Prob Rat) : Bool :=
 def declines (variant : String) : Bool :=
   variant == "InvalidDomain" || variant == "UnimplementedOptimizationType" || variant == "UnavailableComparison"
 
-def checkVerdict (lm : LinModel (Ext Rat)) (solver : String) (r : ImplRes (Ext Rat)) (msg : String) : Sexp :=
+def checkVerdict (lm : LinModel (Ext Rat)) (solver : String) (r : ImplRes (Ext Rat)) (msg : String)
+    (rawStatus : String := "none") : Sexp :=
   match exact lm with
   | .error why => okS [.atom "skipped", .atom why]
   | .ok (p, sol) =>
@@ -176,12 +177,15 @@ def checkVerdict (lm : LinModel (Ext Rat)) (solver : String) (r : ImplRes (Ext R
     | _ => viol "wrong-optimum" [.atom solver, .atom "non-finite", encRat v]
   | .ok _ _, .infeasible => viol "solution-for-infeasible-model" [.atom solver]
   | .ok s _, .unbounded =>
-    -- signature of the Clarabel defect: the interior-point iteration runs off along the improving ray (coordinates
-    -- ≥ 1e6 on data of magnitude ≤ 10) and is nevertheless reported as `Solved`
-    let huge : Bool := match pointOf lm s with
-      | .ok x => x.any (fun v => rabs v ≥ 1000000)
+    -- signature of the Clarabel defect (dependency): clarabel ITSELF ends with status `Solved` / `AlmostSolved` on an
+    -- unbounded LP (its primal or dual iterate runs off along the unbounded direction and the stopping test fires
+    -- anyway), and the point it hands back — which rooc passes through unchanged (correspondence) — is a FEASIBLE
+    -- point of the model within 1e-6: a feasible point mislabelled optimal, not a mapping error of the wrapper.
+    let feasiblePoint : Bool := match pointOf lm s with
+      | .ok x => checkPoint p x tol6
       | .error _ => false
-    if solver == "clarabel" && huge then viol "clarabel-diverging-point-reported-solved" [.atom solver]
+    if solver == "clarabel" && (rawStatus == "Solved" || rawStatus == "AlmostSolved") && feasiblePoint then
+      viol "clarabel-solved-on-unbounded-model" [.atom solver, .atom rawStatus]
     else viol "solution-for-unbounded-model" [.atom solver]
   | .err "Infeasible", .infeasible => okS [tag]
   | .err "Infeasible", _ => viol "infeasible-reported-for-feasible-model" [.atom solver, tag]
